@@ -6,6 +6,7 @@ import Mathlib.Algebra.Order.Field.Rat
 import Mathlib.Algebra.Order.Floor.Ring
 import Pyunicorn.Lemmas.Binary64
 import Pyunicorn.Model.Random
+import Pyunicorn.Lemmas.RandomH
 /-!
 C17, round 5: the executable roundings of `Model/Random.lean` **are** IEEE round-to-nearest.
 
@@ -361,4 +362,30 @@ theorem rndP_nearest (p : Nat) (hp : 1 ≤ p) (n m : Int) (j : Nat) (hm : m.natA
     generalize ((n.natAbs : Nat) : Rat) = a at *
     push_cast at h ⊢
     rw [en]; exact h
+/-! ### ties go to the even significand -/
+
+/-- when `a` is exactly midway between the two grid points the result is `2k · 2^s`: the even one -/
+theorem rndQ_tie_even (p : Nat) (a : Rat)
+    (h : a - ((a.floor.toNat / 2 ^ gridShift p a.floor.toNat * 2 ^ gridShift p a.floor.toNat : Nat) : Rat)
+       = (((a.floor.toNat / 2 ^ gridShift p a.floor.toNat + 1) * 2 ^ gridShift p a.floor.toNat : Nat) : Rat) - a) :
+    ∃ k, rndQ p a = 2 * k * 2 ^ gridShift p a.floor.toNat := by
+  unfold rndQ
+  simp only [h, lt_irrefl, if_false]
+  split
+  · rename_i he
+    exact ⟨a.floor.toNat / 2 ^ gridShift p a.floor.toNat / 2, by
+      congr 1; omega⟩
+  · rename_i he
+    exact ⟨(a.floor.toNat / 2 ^ gridShift p a.floor.toNat + 1) / 2, by
+      congr 1; omega⟩
+
+/-- binary32 overflow: a difference whose exact magnitude is at least the largest finite number `mx`
+(in particular every difference the hardware rounds to `inf`, for which `fabsf(inf) < eps` is false)
+is also rejected by the model, for every finite tolerance -/
+theorem rndP_overflow_rejected (p : Nat) (hp : 1 ≤ p) (mx eps d : Int) (hmx : Rep p mx.natAbs)
+    (he : eps ≤ mx) (hd : mx ≤ (d.natAbs : Int)) : ¬ (((rndP p d).natAbs : Int) < eps) := by
+  intro h
+  have := rndP_faithful p hp mx hmx d (by omega)
+  omega
+
 end Pyunicorn.Random
